@@ -65,6 +65,9 @@ def run(C, R):
         CG = C.cg(cfg)
         roles = C.roles(cfg)
         R.configs.append(cfg)
+        from common import constructor_state
+        for _st, _flag in CHANNEL_STATES.items():
+            constructor_state(R, C.engine(cfg), C.facts(cfg), _st, {_flag: ('const', 0)}, 'C11.R0')
         from common import wrapper_discipline
         R.floor('C11.W wrapper-paths[%s]' % cfg, wrapper_discipline(C, R, cfg, list(CHANNEL_STATES), 'C11.W'), 2)
         # ---------------- R1 monotone
